@@ -140,21 +140,29 @@ def run(ctx):
         t = ret_text(hm, r)
         g = fh.guards(r)
         if t == "false":
-            star = any(p is False and k in ('("*" == pattern.cgroup_path_[i])', '(pattern.cgroup_path_[i] == "*")') for k, p in g)
-            diff = any(p is False and k in ("(pattern.cgroup_path_[i] == this->cgroup_path_[i])", "(this->cgroup_path_[i] == pattern.cgroup_path_[i])") for k, p in g) or \
-                any(p is True and k in ("(pattern.cgroup_path_[i] != this->cgroup_path_[i])", "(this->cgroup_path_[i] != pattern.cgroup_path_[i])") for k, p in g)
-            inb = any(p is True and k.startswith("(i < ") for k, p in g)
-            ctx.check(star and diff and inb, "pattern-match:false-only-on-component-mismatch", "return_table", hm.loc(r),
+            IDX = r"(\w+)"
+            def m_any(pats, pol):
+                out = set()
+                for k, p in g:
+                    if p is pol:
+                        for pat in pats:
+                            mm = re.match(pat, k)
+                            if mm:
+                                out.add(mm.group(1))
+                return out
+            star = m_any([r'^\("\*" == pattern\.cgroup_path_\[%s\]\)$' % IDX, r'^\(pattern\.cgroup_path_\[%s\] == "\*"\)$' % IDX], False)
+            diff = m_any([r"^\(pattern\.cgroup_path_\[%s\] == this->cgroup_path_\[\1\]\)$" % IDX, r"^\(this->cgroup_path_\[%s\] == pattern\.cgroup_path_\[\1\]\)$" % IDX], False) | \
+                m_any([r"^\(pattern\.cgroup_path_\[%s\] != this->cgroup_path_\[\1\]\)$" % IDX, r"^\(this->cgroup_path_\[%s\] != pattern\.cgroup_path_\[\1\]\)$" % IDX], True)
+            inb = m_any([r"^\(%s < .+\)$" % IDX], True)
+            ctx.check(bool(star & diff & inb), "pattern-match:false-only-on-component-mismatch", "return_table", hm.loc(r),
                       "false only when a common component differs and the pattern's component is not '*'", "false returned under %s" % sorted(g, key=str))
         else:
-            ctx.check(t == "true" and any(p is False and k.startswith("(i < ") for k, p in g), "pattern-match:true-after-all-common-components", "return_table", hm.loc(r),
+            ctx.check(t == "true" and any(p is False and re.match(r"^\(\w+ < .+\)$", k) for k, p in g), "pattern-match:true-after-all-common-components", "return_table", hm.loc(r),
                       "true once all common components matched", "returns %s under %s" % (t, sorted(g, key=str)))
     Xh = Expander(P, hm)
     lh = [l for l in loops(hm) if l["stmt"] is not None]
     hdr = Xh(hm.nodes[lh[0]["stmt"]]["c"]) if len(lh) == 1 and "c" in hm.nodes[lh[0]["stmt"]] else "?"
-    ctx.check(hdr in ("(var:i < std::min(this->cgroup_path_.size(), pattern.cgroup_path_.size()))", "(var:i < std::min(pattern.cgroup_path_.size(), this->cgroup_path_.size()))",
-                      "(i < std::min(this->cgroup_path_.size(), param:pattern.cgroup_path_.size()))", "(var:i < std::min(this->cgroup_path_.size(), param:pattern.cgroup_path_.size()))",
-                      "(var:i < std::min(param:pattern.cgroup_path_.size(), this->cgroup_path_.size()))"),
+    ctx.check(re.match(r"^\((?:var:)?\w+ < std::min\((?:this->cgroup_path_\.size\(\), (?:param:)?pattern\.cgroup_path_\.size\(\)|(?:param:)?pattern\.cgroup_path_\.size\(\), this->cgroup_path_\.size\(\))\)\)$", hdr) is not None,
               "pattern-match:over-common-prefix", "loop-shape", hm.loc(), "components are compared over the common prefix length (ancestor / descendant cases fall out as true)",
               "loop bound is " + hdr)
     # ---- (3) resolveWildcard prefix filter
